@@ -140,6 +140,8 @@ func fileTreeRecursive(
 	if children == nil {
 		children = make(fileShards, 0)
 	}
+	// children we were seeded with: the root of the previous (shallower) tree
+	seeded := len(children)
 
 	// fill up the links for this level, if we need to go beyond
 	// DefaultLinksPerBlock we'll end up back here making a parallel tree
@@ -157,8 +159,12 @@ func fileTreeRecursive(
 	if len(children) == 0 {
 		// empty case
 		return fileShardMeta{}, nil
-	} else if len(children) == 1 {
-		// degenerate case
+	} else if len(children) == 1 && seeded == 1 {
+		// nothing was added next to the previous root: hand it back unchanged,
+		// which is how BuildUnixFSFile detects that the input is exhausted.
+		// A lone child found while descending is not collapsed: like the
+		// reference balanced importer it keeps its interior node, so that all
+		// leaves stay at the same depth.
 		return children[0], nil
 	}
 
